@@ -309,10 +309,12 @@ HTaskFinished(W, S, t, B) ==
         newRel == IF gdone2 /\ S.gr[g].closed
                   THEN Flatten([i \in 1..Len(B.newg) |-> Releasable(S4, B.newg[i])]) ELSE <<>>
         S5 == [S4 EXCEPT !.wl = @ \o (IF gdone2 /\ S.gr[g].closed THEN B.newg ELSE <<>>)]
+        newG == IF gdone2 /\ S.gr[g].closed THEN B.newg ELSE <<>>
+        gev == [i \in 1..Len(newG) |-> Ev(E_GRELEASE, GRelease(S5, newG[i]), 0, newG[i], NoPlan)]
         cev == CancelEvents(S5, n.cancelled)
         lastTm == IF cev = <<>> THEN S.now ELSE cev[Len(cev)].tm
         rev == ReleaseEvents(S5, n.released \o newRel, lastTm)
-    IN  [S |-> QAddAll(S5, cev \o rev), err |-> n.err]
+    IN  [S |-> QAddAll(S5, gev \o cev \o rev), err |-> n.err]
 
 (* TASK_PLACEMENT.  B.fuzz = remaining time after Task.start's fuzz (bound from the  *)
 (* log; must lie within the variance range).                                          *)
@@ -450,7 +452,8 @@ HSchedFinished(W, S, B) ==
         \* tasks of graphs created by closed-loop notifications on cancellation
         newRel == Flatten([i \in 1..Len(B.newg) |-> Releasable(S1, B.newg[i])])
         relEv == [i \in 1..Len(newRel) |-> Ev(E_RELEASE, S1.ts[newRel[i]].rel, newRel[i], 0, NoPlan)]
-        S2 == QAddAll([S1 EXCEPT !.wl = @ \o B.newg], r.evs \o relEv)
+        gev == [i \in 1..Len(B.newg) |-> Ev(E_GRELEASE, GRelease(S1, B.newg[i]), 0, B.newg[i], NoPlan)]
+        S2 == QAddAll([S1 EXCEPT !.wl = @ \o B.newg], r.evs \o gev \o relEv)
         S3 == [S2 EXCEPT !.sch.pend = 0, !.pd = [rt |-> 0, decs |-> <<>>]]
         ne == NextSchedulerEvent(W, S3, B.offered2)
         S4 == QAdd(S3, ne)
